@@ -1,18 +1,124 @@
-//! C19 – wrapped rows and height overflow: tiny terminals (from 1x1), line widths around multiples
-//! of the width, histories that grow and shrink the set of bars past the terminal height.
-use verif_harness::sysoracle::*;
+//! C19 - wrapped rows and height overflow: tiny terminals (from 1x1), line widths around multiples
+//! of the width, histories that grow and shrink the set of bars past the terminal height
+//! (MultiProgress and single standalone bars), plus a boundary sweep of the f64 ceiling of
+//! LineType::wrapped_height against the integer ceiling of the model.
+#[path = "c19oracle/mod.rs"]
+mod c19oracle;
+use c19oracle::run_sys_cases;
 use verif_harness::sysrun::*;
 use verif_harness::*;
+
+/// single standalone bar, multi-line templates that make frames taller than the terminal
+fn gen_single(r: &mut Rng) -> Case {
+    let w = *r.pick(&[1u16, 2, 3, 4, 5, 7]);
+    let h = *r.pick(&[1u16, 2, 3, 4]);
+    let wu = w as usize;
+    let bar = BarInit {
+        len: if r.chance(1, 4) { None } else { Some(r.below(30)) },
+        fin: gen_fin_short(r, wu),
+        tmpl: gen_tmpl(r, wu),
+        target: TInit::Term(None),
+    };
+    let n = r.range(2, 14) as usize;
+    let mut t = 0u64;
+    let mut ops = vec![];
+    for _ in 0..n {
+        t += gen_gap(r).max(1_000_000);
+        let op = match r.below(16) {
+            0..=2 => Op::Tick(0),
+            3..=4 => Op::Inc(0, r.below(5)),
+            5..=8 => Op::SetMsg(0, gen_multiline(r, wu)),
+            9 => Op::SetPrefix(0, gen_width_text(r, wu)),
+            10 => Op::SetStyle(0, gen_tmpl(r, wu)),
+            11..=12 => Op::Println(0, gen_multiline(r, wu)),
+            13 => Op::Suspend(0, gen_suspend_lines(r, wu)),
+            14 => Op::Finish(0, gen_fin_short(r, wu)),
+            _ => Op::ForceDraw(0),
+        };
+        ops.push((t, op));
+    }
+    Case { w, h, fail_at: vec![], fail_from: None, mp: TInit::Hidden, bars: vec![bar], ops }
+}
+
+/// minimised witnesses (run first)
+fn corpus() -> Vec<Case> {
+    let sbar = |tmpl: Vec<TPart>| BarInit { len: None, fin: Fin::AndLeave, tmpl, target: TInit::Term(None) };
+    let mk = |w, h, b: BarInit, ops: Vec<Op>| Case {
+        w,
+        h,
+        fail_at: vec![],
+        fail_from: None,
+        mp: TInit::Hidden,
+        bars: vec![b],
+        ops: ops.into_iter().enumerate().map(|(i, o)| ((i as u64 + 1) * 1_000_000_000, o)).collect(),
+    };
+    vec![
+        // Coq: C19_text_cut_refuted - println while not even the first frame line fits the height
+        mk(3, 1, sbar(vec![TPart::Lit("AAAA".into())]), vec![Op::Tick(0), Op::Println(0, "x".into()), Op::Println(0, "y".into())]),
+        // Coq: C19_example_cut_then_room - frame taller than the terminal, then it shrinks and fits
+        mk(
+            2,
+            3,
+            BarInit { len: Some(5), fin: Fin::AndLeave, tmpl: vec![TPart::Lit("ab".into()), TPart::NewLine, TPart::Msg, TPart::NewLine, TPart::Pos], target: TInit::Term(None) },
+            vec![Op::SetMsg(0, "wxyz".into()), Op::Println(0, "log".into()), Op::SetMsg(0, "w".into()), Op::Inc(0, 1)],
+        ),
+    ]
+}
+
+/// LineType::wrapped_height computes `(cols as f64 / width as f64).ceil() as usize`; the model uses
+/// the integer ceiling (Coq: C19_wrapped_height_f64_exact for operands < 2^53).  Same expression
+/// here (private in the crate), swept over the boundaries.
+fn f64_ceiling_sweep(s: &mut Session, r: &mut Rng, n: u64) {
+    let p53 = 1u64 << 53;
+    let mut check = |s: &mut Session, cols: u64, width: u64| {
+        let got = usize::max((cols as f64 / width as f64).ceil() as usize, 1) as u128;
+        let want = u128::max(1, (cols as u128 + width as u128 - 1) / width as u128);
+        s.count("f64_ceiling_checks");
+        if got != want {
+            s.fail(
+                if cols < p53 && width < p53 { "f64-ceiling-differs-below-2^53" } else { "f64-ceiling-differs-at-or-above-2^53" },
+                format!("cols={cols} width={width}: f64 gives {got}, integer ceiling is {want}"),
+                format!("wrapped_height cols={cols} width={width}"),
+            );
+        }
+    };
+    let edge = [1u64, 2, 3, 5, 7, 10, 80, 255, 65535, (1 << 24) - 1, 1 << 24, (1 << 26) + 1, (1 << 32) - 1, p53 / 3, p53 - 2, p53 - 1];
+    for &wd in &edge {
+        for &c in &edge {
+            for d in [0u64, 1, 2] {
+                check(s, c.saturating_sub(d), wd);
+                if let Some(m) = c.checked_mul(wd) {
+                    if m + d < p53 {
+                        check(s, m + d, wd);
+                        check(s, m - d.min(m), wd);
+                    }
+                }
+            }
+        }
+    }
+    for _ in 0..n {
+        let wd = match r.below(3) { 0 => r.range(1, 300), 1 => r.range(1, 1 << 32), _ => r.range(1, p53 - 1) };
+        let q = r.below((p53 - 1) / wd + 1);
+        for c in [q * wd, (q * wd).saturating_sub(1), (q * wd + 1).min(p53 - 1), r.below(p53)] {
+            check(s, c, wd);
+        }
+    }
+    s.oracle_only(format!("f64 ceiling sweep: {} random divisors + boundary grid, all below 2^53", n), true);
+}
 
 fn main() {
     let a = args();
     let mut s = Session::new(&a, "C19", COQ_HEADER, COQ_CASE_TY, COQ_CHECKER);
     s.shard_size = 120;
-    s.rule = "MultiProgress and single-bar histories on terminals W in 1..10, H in 1..6 (and 1x1), 1..6 bars with one- to three-line templates and messages whose widths cluster at multiples of W, adds/removes/finishes/drops that push the frame past the height and back; every draw current (gaps >= 1 ms, no refresh limiter); oracle: screen = log ++ the leading bar lines whose accumulated wrapped rows fit H, nothing else; non-trivial = some frame exceeded the height or some line wrapped; distinct = distinct case text".into();
+    s.rule = "MultiProgress and single-bar histories on terminals W in 1..10, H in 1..6 (and 1x1), 1..6 bars with one- to three-line templates and messages whose widths cluster at multiples of W, adds/removes/finishes/drops that push the frame past the height and back; single standalone bars with random multi-line templates on W in {1,2,3,4,5,7} x H in 1..4; every draw current (gaps >= 1 ms, no refresh limiter); oracle: screen = log ++ the leading bar lines whose accumulated wrapped rows fit H, nothing else; plus a sweep of the f64 ceiling of wrapped_height; non-trivial = at least 4 ops; distinct = distinct case text".into();
     let mut r = Rng::new(a.seed);
     let n = if a.thorough { 6000 } else if a.extended { 3000 } else { 500 };
-    let mut cases = vec![];
+    let mut cases = corpus();
     for i in 0..n {
+        if i % 4 == 3 {
+            cases.push(gen_single(&mut r));
+            continue;
+        }
         let mut cfg = GenCfg::default_multi();
         cfg.widths = vec![1, 2, 3, 4, 5, 7, 10];
         cfg.heights = vec![1, 2, 3, 4, 5, 6];
@@ -28,5 +134,6 @@ fn main() {
         cases.push(gen_multi_case(&mut r, &cfg));
     }
     run_sys_cases(&mut s, &cases, &|c, _| c.ops.len() >= 4);
+    f64_ceiling_sweep(&mut s, &mut r, if a.thorough { 200_000 } else { 20_000 });
     s.finish();
 }
